@@ -100,6 +100,12 @@ type (
 		// internal option to indicate if the
 		// END word is parsed as a terminator.
 		endterm *regexp.Regexp
+		// offset of src in the input of the top-level scanner, and the results of
+		// scanning the BEGIN blocks that were found there: the offset of a block
+		// maps to its length, or to -1 if it has no END. Shared by nested scanners
+		// to avoid scanning the same block again after an enclosing one failed.
+		base   int
+		begins map[int]int
 	}
 
 	// ScannerOptions controls the behavior of the scanner.
@@ -133,6 +139,7 @@ type (
 // Scan scans the statement in the given input.
 func (s *Scanner) Scan(input string) ([]*Stmt, error) {
 	var stmts []*Stmt
+	s.base, s.begins = 0, nil
 	if err := s.init(input); err != nil {
 		return nil, err
 	}
@@ -413,7 +420,19 @@ func (s *Scanner) skipBegin() error {
 		return s.error(s.pos, "unexpected missing BEGIN block")
 	}
 	s.addPos(len(m) - 1)
-	group := &Scanner{ScannerOptions: s.ScannerOptions}
+	if s.begins == nil {
+		s.begins = make(map[int]int)
+	}
+	at := s.base + s.total
+	switch n, ok := s.begins[at]; {
+	case ok && n < 0:
+		return s.error(s.pos, "unexpected eof when scanning compound statements")
+	case ok:
+		s.addPos(n)
+		return nil
+	}
+	s.begins[at] = -1
+	group := &Scanner{ScannerOptions: s.ScannerOptions, base: at, begins: s.begins}
 	if s.BeginEndTerminator {
 		group.endterm = reEndTerm
 	}
@@ -435,6 +454,7 @@ Loop:
 			break Loop
 		}
 	}
+	s.begins[at] = group.total
 	s.addPos(group.total)
 	return nil
 }
